@@ -210,9 +210,106 @@ _C20 = [
       "support_function_ellipsoid(search_direction, self.ellipsoid2origin[0], self.radii)", ["R-EAGER", "Ellipsoid.support_function"]),
 ]
 
-_ALL = _C05 + _C07 + _C14 + _C15 + _C16 + _C19 + _C20
+_C01 = [
+    M(["C01", "C02"], "jolt-support-same-dir", JO, "gjk_distance_jolt", "collider2.support_function(-search_direction)", "collider2.support_function(search_direction)", ["R-MINK", "gjk_distance_jolt", "negated"]),
+    M(["C01", "C02"], "jolt-intersection-same-dir", JO, "gjk_intersection_jolt", "collider2.support_function(-search_direction)", "collider2.support_function(search_direction)", ["R-MINK", "gjk_intersection_jolt"]),
+    M(["C01", "C02"], "jolt-diff-swapped", JO, "_distance_loop", "support_point = p - q", "support_point = q - p", ["R-MINK", "difference"]),
+    M(["C01", "C02", "C08"], "mink-make-support-swapped", MK, "make_support_point", "return (v1 - v2, v1, v2)", "return (v2 - v1, v1, v2)", ["R-MINK", "make_support_point"]),
+    M(["C01", "C02", "C08"], "mink-support-both-positive", MK, "support_function", "collider2.support_function(-search_direction)", "collider2.support_function(search_direction)", ["R-MINK", "minkowski::support_function"]),
+    M(["C02"], "libccd-seed-swapped", LC, "_gjk", "make_support_point(collider1.first_vertex(), collider2.first_vertex())", "make_support_point(collider2.first_vertex(), collider1.first_vertex())", ["R-MINK", "seed"]),
+    M(["C02"], "libccd-forward-swapped", LC, "_gjk", "support_function(collider1, collider2, search_direction)", "support_function(collider2, collider1, search_direction)", ["R-MINK", "forwards"]),
+    M(["C01"], "par-q-row-missing", JO, "_distance_loop", "Q[n_points] = q", "", ["R-PAR", "_distance_loop"]),
+    M(["C01"], "par-q-stores-p", JO, "_distance_loop", "Q[n_points] = q", "Q[n_points] = p", ["R-PAR", "_distance_loop"]),
+    M(["C01"], "par-compact-q-wrong-row", JO, "update_simplex_ypq", "Q[n_new_points] = Q[i]", "Q[n_new_points] = Q[n_new_points]", ["R-PAR", "update_simplex_ypq"]),
+    M(["C01"], "par-bit-test", JO, "update_simplex_ypq", "simplex & 1 << i", "simplex & 1 << n_new_points", ["R-PAR", "keep rows"]),
+    M(["C01"], "bary-weights-swapped-b", JO, "calculate_closest_points", "b = u * Q[0] + v * Q[1]", "b = v * Q[0] + u * Q[1]", ["R-BARY", "n_points == 2"]),
+    M(["C01"], "bary-p-in-b", JO, "calculate_closest_points", "b = u * Q[0] + v * Q[1] + w * Q[2]", "b = u * Q[0] + v * P[1] + w * Q[2]", ["R-BARY", "n_points == 3"]),
+    M(["C01"], "bary-y-order", JO, "calculate_closest_points", "get_barycentric_coordinates_plane(Y[0], Y[1], Y[2])", "get_barycentric_coordinates_plane(Y[0], Y[2], Y[1])", ["R-BARY", "n_points == 3"]),
+    M(["C01", "C18"], "bitmap-acd-shift", JO, "closest_point_tetrahedron", "(new_set & 1) + ((new_set & 6) << 1)", "(new_set & 1) + ((new_set & 6) << 2)", ["R-BITMAP", "(a, c, d)"]),
+    M(["C01", "C18"], "bitmap-adb-permuted", JO, "closest_point_tetrahedron", "(new_set & 1) + ((new_set & 2) << 2) + ((new_set & 4) >> 1)", "(new_set & 1) + ((new_set & 2) << 1) + ((new_set & 4) >> 0)", ["R-BITMAP", "(a, d, b)"]),
+    M(["C01", "C18"], "bitmap-bdc-args", JO, "closest_point_tetrahedron", "closest_point_triangle(b, d, c)", "closest_point_triangle(b, c, d)", ["R-BITMAP", "closest_point_triangle(b, c, d)"]),
+    M(["C01", "C18"], "bitmap-line-ac", JO, "closest_point_triangle", "(new_set & 1) + ((new_set & 2) << 1)", "new_set", ["R-BITMAP", "closest_point_line(a, c)"]),
+    M(["C01", "C18"], "bitmap-nonstrict", JO, "closest_point_tetrahedron", "dist_sq < best_dist_sq", "dist_sq <= best_dist_sq", ["R-BITMAP", "point-with-mask"], nth=1),
+    M(["C01", "C18"], "bitmap-point-not-adopted", JO, "closest_point_tetrahedron", "closest_point = q", "", ["R-BITMAP", "point-with-mask"], nth=0),
+    M(["C01", "C18"], "maskpoint-edge-ab", JO, "closest_point_triangle", "return (a + v * ab, 3)", "return (a + v * ab, 5)", ["R-MASKPOINT"]),
+    M(["C01", "C18"], "maskpoint-vertex-c", JO, "closest_point_triangle", "return (c, 4)", "return (b, 4)", ["R-MASKPOINT"]),
+    M(["C01", "C18"], "maskpoint-line", JO, "closest_point_line", "return (b, 2)", "return (b, 1)", ["R-MASKPOINT", "closest_point_line"]),
+    M(["C01", "C18"], "planes-entry-face", JO, "origin_outside_of_tetrahedron_planes", "signp1 = a.dot(ac_cross_ad)", "signp1 = a.dot(ad_cross_ab)", ["R-PLANES", "entry 1"]),
+    M(["C01", "C18"], "planes-opposite", JO, "origin_outside_of_tetrahedron_planes", "signd0 = ad.dot(ab_cross_ac)", "signd0 = ab.dot(ab_cross_ac)", ["R-PLANES", "entry 0", "opposite"]),
+    M(["C01", "C18"], "planes-sign-of-a", JO, "origin_outside_of_tetrahedron_planes", "signd3 = -ab.dot(bd_cross_bc)", "signd3 = ab.dot(bd_cross_bc)", ["R-PLANES", "entry 3"]),
+    M(["C01", "C18"], "planes-guard-index", JO, "closest_point_tetrahedron", "origin_out_of_planes[2]", "origin_out_of_planes[1]", ["R-PLANES"], nth=0),
+    M(["C01", "C18"], "dispatch-y-order", JO, "get_closest_point_to_origin", "closest_point_triangle(Y[0], Y[1], Y[2])", "closest_point_triangle(Y[0], Y[2], Y[1])", ["R-SOLVERDISPATCH", "3 points"]),
+    M(["C01", "C18"], "dispatch-accept-nonstrict", JO, "get_closest_point_to_origin", "v_len_sq < prev_v_len_sqr", "v_len_sq <= prev_v_len_sqr", ["R-SOLVERDISPATCH", "accept"]),
+]
 
-FLOORS = {"C05": 40, "C07": 14, "C14": 9, "C15": 8, "C16": 12, "C19": 14, "C20": 10}
+_C18 = [
+    M(["C18", "C09"], "johnson-face-weights-permuted", OR, "_backup_procedure_tetrahedron", "solution_d.from_face(simplex, [0, 3, 2], d.d[0, 12], d.d[3, 12], d.d[2, 12])",
+      "solution_d.from_face(simplex, [0, 3, 2], d.d[0, 12], d.d[2, 12], d.d[3, 12])", ["R-JOHNSON", "(0, 2, 3)", "weight order"]),
+    M(["C18", "C09"], "johnson-wrong-column", OR, "_backup_procedure_tetrahedron", "solution_d.from_face(simplex, [0, 1, 3], d.d[0, 11], d.d[1, 11], d.d[3, 11])",
+      "solution_d.from_face(simplex, [0, 1, 3], d.d[0, 12], d.d[1, 12], d.d[3, 12])", ["R-JOHNSON", "(0, 1, 3)"]),
+    M(["C18", "C09"], "johnson-ordered-indices", OR, "_backup_procedure_tetrahedron", "ordered_indices[:2] = (3, 1)", "ordered_indices[:2] = (1, 3)", ["R-JOHNSON", "(1, 3)", "records"]),
+    M(["C18", "C09"], "johnson-n-points", OR, "_backup_procedure_face", "n_simplex_points = 3", "n_simplex_points = 2", ["R-JOHNSON", "(0, 1, 2)", "records"]),
+    M(["C18", "C09"], "johnson-nonstrict", OR, "_backup_procedure_face", "solution_d.distance_squared < solution.distance_squared", "solution_d.distance_squared <= solution.distance_squared", ["R-JOHNSON", "strict"], nth=1),
+    M(["C18", "C09"], "johnson-guard-column", OR, "_backup_procedure_tetrahedron", "d.check_face_013_of_tetrahedron()", "d.check_face_023_of_tetrahedron()", ["R-JOHNSON", "(0, 1, 3)", "guard"], nth=0),
+    M(["C18", "C09"], "johnson-vertex-wrong-diag", OR, "_backup_procedure_tetrahedron", "check_vertex_4 = simplex.dot_product_table[3, 3] < solution.distance_squared",
+      "check_vertex_4 = simplex.dot_product_table[2, 2] < solution.distance_squared", ["R-JOHNSON", "(3,)"]),
+    M(["C18", "C09"], "johnson-vertex-record", OR, "_backup_procedure_face", "ordered_indices[0] = 2", "ordered_indices[0] = 1", ["R-JOHNSON", "(2,)"]),
+    M(["C18", "C09"], "exhaustive-missing-edge", OR, "_backup_procedure_tetrahedron",
+      "if d.check_line_segment_23_of_tetrahedron():\n    solution_d.from_line_segment(simplex, [2, 3], d.d[2, 10], d.d[3, 10])\n    if solution_d.distance_squared < solution.distance_squared:\n        n_simplex_points = 2\n        solution.copy_from(solution_d, n_simplex_points)\n        ordered_indices[:2] = (2, 3)",
+      "", ["R-EXHAUSTIVE", "_backup_procedure_tetrahedron"]),
+    M(["C18", "C09"], "exhaustive-missing-vertex", OR, "_backup_procedure_face",
+      "check_vertex_3 = simplex.dot_product_table[2, 2] < solution.distance_squared\nif check_vertex_3:\n    n_simplex_points = 1\n    solution.from_vertex(simplex, 2)\n    ordered_indices[0] = 2",
+      "", ["R-EXHAUSTIVE", "_backup_procedure_face"]),
+    M(["C18", "C09"], "johnson-from-face-order", OR, "Solution.from_face", "self.barycentric_coordinates[1] = b / coords_sum", "self.barycentric_coordinates[1] = c / coords_sum", ["R-JOHNSON", "Solution.from_face"]),
+    M(["C18", "C09"], "johnson-cofactor-store-row", OR, "BarycentricCoordinates.tetrahedron_coordinates_4", "self.d[2, 12] = self.d[0, 8] * self.d[2, 4] + self.d[3, 8] * e134",
+      "self.d[1, 12] = self.d[0, 8] * self.d[2, 4] + self.d[3, 8] * e134", ["R-JOHNSON"]),
+]
+
+_C09 = [
+    M(["C09", "C02"], "infl-unconditional", NE, "gjk_nesterov_accelerated", "specialized and (type(collider0) == Sphere or type(collider0) == Capsule)", "type(collider0) == Sphere or type(collider0) == Capsule", ["R-INFL", "side 0"]),
+    M(["C09", "C02"], "infl-cylinder", NE, "gjk_nesterov_accelerated", "specialized and (type(collider1) == Sphere or type(collider1) == Capsule)", "specialized and (type(collider1) == Sphere or type(collider1) == Capsule or type(collider1) == Cylinder)", ["R-INFL", "side 1"]),
+    M(["C09", "C02"], "infl-capsule-forgotten", NE, "gjk_nesterov_accelerated", "specialized and (type(collider0) == Sphere or type(collider0) == Capsule)", "specialized and type(collider0) == Sphere", ["R-INFL", "Capsule"]),
+    M(["C09", "C02"], "infl-prim-capsule-forgotten", NP_, "gjk_nesterov_accelerated_primitives", "type(collider1) == Sphere or type(collider1) == Capsule", "type(collider1) == Sphere", ["R-INFL", "primitives", "Capsule"]),
+    M(["C09", "C02"], "infl-sphere-support-uses-radius", NE, "select_support", "return (sphere_support(), True)", "return (np.array([0.0, 0.0, collider.radius]), True)", ["R-INFL", "Sphere"]),
+    M(["C09", "C02"], "infl-wrong-side", NE, "gjk_nesterov_accelerated", "inflation += collider1.radius", "inflation += collider0.radius", ["R-INFL"]),
+    M(["C09", "C02"], "dispatch-codes-swapped", NP_, "select_support", "return capsule_support(dir, data)", "return box_support(dir, data)", ["R-DISPATCH", "code 1"]),
+    M(["C09", "C02"], "dispatch-cylinder-slots", NP_, "get_data_from_collider", "return (np.array([h, r, 0.0]), 4)", "return (np.array([r, h, 0.0]), 4)", ["R-DISPATCH", "Cylinder"]),
+    M(["C09", "C02"], "dispatch-capsule-full-height", NP_, "get_data_from_collider", "h = collider.height / 2", "h = collider.height", ["R-DISPATCH", "Capsule", "half"]),
+    M(["C09", "C02"], "dispatch-ellipsoid-order", NP_, "get_data_from_collider", "return (np.array([a2, b2, c2]), 3)", "return (np.array([a2, c2, b2]), 3)", ["R-DISPATCH", "Ellipsoid"]),
+    M(["C09", "C02"], "dtree-condition", NP_, "project_line_origin", "d < 0", "d <= 0", ["R-DTREE", "project_line_origin"]),
+    M(["C09", "C02"], "dtree-leaf", NE, "project_tetra_to_origin", "ray, simplex_len = region_ad(tetra, a_index, d_index, a, d, da_aa)", "ray, simplex_len = region_ac(tetra, a_index, c_index, a, c, ca_aa)", ["R-DTREE", "project_tetra_to_origin"], nth=0),
+    M(["C09", "C02"], "dtree-region-body", NP_, "origin_to_segment", "ray = (ab.dot(b) * a + ab_dot_a0 * b) / ab.dot(ab)", "ray = (ab.dot(b) * a - ab_dot_a0 * b) / ab.dot(ab)", ["R-DTREE", "origin_to_segment"]),
+    M(["C09", "C02"], "tuplerole-distance-index", NE, "gjk_nesterov_accelerated_distance", "gjk_nesterov_accelerated(collider1, collider2)[1]", "gjk_nesterov_accelerated(collider1, collider2)[3]", ["R-TUPLEROLE", "gjk_nesterov_accelerated_distance"]),
+    M(["C09", "C02"], "tuplerole-no-clamp", NP_, "gjk_nesterov_accelerated_primitives_distance", "max(gjk_nesterov_accelerated_primitives(collider0, collider1)[1], 0.0)", "gjk_nesterov_accelerated_primitives(collider0, collider1)[1]", ["R-TUPLEROLE", "clamped"]),
+    M(["C09"], "tuplerole-original-iterations", OR, "gjk_distance_iterations", "gjk_distance_original(collider1, collider2)[4]", "gjk_distance_original(collider1, collider2)[3]", ["R-TUPLEROLE", "gjk_distance_iterations"]),
+    M(["C09", "C02"], "tuplerole-return-order", NE, "gjk_nesterov_accelerated", "return (inside, distance, simplex, i)", "return (inside, simplex, distance, i)", ["R-TUPLEROLE"]),
+    M(["C09"], "tuplerole-jolt-iterations-args", JO, "gjk_distance_jolt_iterations",
+      "_distance_loop(p, q, Y, P, Q, n_points, tolerance_sq, prev_v_len_sq, v_len_sq, search_direction, max_distance_squared)",
+      "_distance_loop(q, p, Y, P, Q, n_points, tolerance_sq, prev_v_len_sq, v_len_sq, search_direction, max_distance_squared)", ["gjk_distance_jolt_iterations"]),
+    M(["C09", "C02"], "nesterov-fallback-same-dir", NE, "support_function", "collider1.support_function(-dir)", "collider1.support_function(dir)", ["R-MINK", "support_function", "negated"]),
+    M(["C09", "C02"], "nesterov-diff-swapped", NE, "gjk_nesterov_accelerated", "simplex[simplex_len] = s0 - s1", "simplex[simplex_len] = s1 - s0", ["R-MINK", "difference"]),
+]
+
+_C08 = [
+    M(["C08"], "mpr-direction-not-normalised", MP, "_find_penetration_segment", "return (depth, norm_vector(penetration_direction), contact_position)", "return (depth, penetration_direction, contact_position)", ["R-UNITDIR", "_find_penetration_segment"]),
+    M(["C08"], "mpr-info-direction-raw", MP, "_find_penetration_info", "return (depth, norm_vector(pdir), pos)", "return (depth, pdir, pos)", ["R-UNITDIR", "_find_penetration_info"]),
+    M(["C08"], "mpr-depth-signed", MP, "_find_penetration_segment", "depth = np.linalg.norm(penetration_direction)", "depth = penetration_direction[0]", ["R-UNITDIR", "_find_penetration_segment"]),
+    M(["C08"], "mpr-touch-direction", MP, "_find_penetration_touch", "penetration_direction = np.zeros(3)", "penetration_direction = v1[1]", ["R-UNITDIR", "_find_penetration_touch"]),
+    M(["C08"], "mpr-unpack-order", MP, "mpr_penetration", "depth, penetration_direction, contact_position = _find_penetration_segment(portal.v, portal.v1, portal.v2)",
+      "penetration_direction, depth, contact_position = _find_penetration_segment(portal.v, portal.v1, portal.v2)", ["R-UNITDIR"]),
+    M(["C08"], "mpr-no-zero-on-touch", MP, "_penetration_info", "if abs(depth) < EPSILON:\n    penetration_direction = np.zeros(3)", "", ["R-UNITDIR", "zero vector when touching"]),
+    M(["C08"], "mpr-face-v0", MP, "_penetration_info", "point_to_triangle(np.zeros(3), v[1:])", "point_to_triangle(np.zeros(3), v[:3])", ["R-UNITDIR", "portal face"]),
+    M(["C08"], "mpr-contact-weights", MP, "_contact_position", "v2 = barycentric_coordinates.dot(v2)", "v2 = barycentric_coordinates[::-1].dot(v2)", ["R-UNITDIR", "same weights"]),
+    M(["C08", "C02"], "mpr-par-rows", MP, "_expand_portal", "v[3], v1[3], v2[3] = (v4, v14, v24)", "v[3], v1[3], v2[2] = (v4, v14, v24)", ["R-PAR", "_expand_portal"]),
+    M(["C08", "C02"], "mpr-par-sources", MP, "_iterate_discover_portal", "v[1], v1[1], v2[1] = (v[3], v1[3], v2[3])", "v[1], v1[1], v2[1] = (v[3], v1[3], v2[2])", ["R-PAR", "_iterate_discover_portal"]),
+    M(["C08", "C02"], "mpr-seed-mixed", MP, "_find_origin_ray", "make_support_point(collider1.center(), collider2.center())", "make_support_point(collider1.center(), collider2.first_vertex())", ["R-MINK", "seed"]),
+    M(["C08", "C02"], "mpr-forward-swapped", MP, "_find_penetration_info", "support_function(collider1, collider2, search_direction)", "support_function(collider2, collider1, search_direction)", ["R-MINK", "forwards"]),
+    M(["C08", "C02"], "simplex-add-point-rows", MK, "Simplex.add_point", "self.v2[self.n_points] = v2", "self.v2[self.n_points] = v1", ["R-PAR", "add_point"]),
+]
+
+_ALL = _C05 + _C07 + _C14 + _C15 + _C16 + _C19 + _C20 + _C01 + _C18 + _C09 + _C08
+
+FLOORS = {"C05": 40, "C07": 14, "C14": 9, "C15": 8, "C16": 12, "C19": 14, "C20": 10, "C01": 24, "C18": 24, "C09": 24, "C08": 10, "C02": 20}
 
 
 def all_mutants():
